@@ -319,6 +319,53 @@ def main():
     head = [t for _, t in sorted(head)]
     per = [t for _, t in sorted(per)]
 
+    # library calls of the two workflows in source order: (callee, arguments after the sample, innermost enclosing if-test)
+    def lib_calls(fn):
+        out = []
+
+        def walk(node, guard):
+            for ch in ast.iter_child_nodes(node):
+                if isinstance(ch, ast.If):
+                    walk(ch.test, guard)
+                    for b in ch.body:
+                        walk_stmt(b, ast.unparse(ch.test))
+                    for b in ch.orelse:
+                        walk_stmt(b, 'not (' + ast.unparse(ch.test) + ')')
+                else:
+                    visit_node(ch, guard)
+
+        def walk_stmt(st, guard):
+            if isinstance(st, ast.If):
+                walk(ast.Module(body=[st], type_ignores=[]), guard)
+            else:
+                visit_node(st, guard)
+
+        def visit_node(n, guard):
+            if isinstance(n, ast.Call):
+                name = ast.unparse(n.func)
+                if name.startswith('FlowCal.') and name.count('.') == 2 and not name.startswith('FlowCal.plot') and not name.startswith('FlowCal.io'):
+                    args = [ast.unparse(a) for a in n.args[1:]] + ['%s=%s' % (k.arg, ast.unparse(k.value)) for k in n.keywords if k.arg != 'data']
+                    out.append((n.lineno, name[len('FlowCal.'):], ', '.join(args), guard))
+            walk(n, guard)
+        walk(fn, '')
+        return [(a, b, c) for _, a, b, c in sorted(out)]
+    sample_calls = lib_calls(top_func(ex, 'process_samples_table'))
+    # statistic written into each per-channel result column: (suffix, function, object it is computed on)
+    stat_cols = []
+    pos_rule = []
+    for n in ast.walk(top_func(ex, 'add_samples_stats')):
+        if isinstance(n, ast.Assign) and len(n.targets) == 1 and isinstance(n.targets[0], ast.Subscript) and ast.unparse(n.targets[0].value) == 'samples_table.at' \
+                and isinstance(n.value, ast.Call) and ast.unparse(n.value.func).startswith('FlowCal.stats.'):
+            k = n.targets[0].slice
+            suffix = k.elts[1].right.value if (isinstance(k, ast.Tuple) and isinstance(k.elts[1], ast.BinOp) and isinstance(k.elts[1].right, ast.Constant)) else ast.unparse(k)
+            stat_cols.append((n.lineno, suffix, ast.unparse(n.value.func)[len('FlowCal.stats.'):], ', '.join(ast.unparse(a) for a in n.value.args)))
+        if isinstance(n, ast.Assign) and len(n.targets) == 1 and ast.unparse(n.targets[0]) == 'sample_positive':
+            pos_rule.append((n.lineno, ast.unparse(n.value)))
+        if isinstance(n, ast.If) and 'sample_positive' in ast.unparse(n.body[0] if n.body else n) and 'np.any' in ast.unparse(n.test):
+            pos_rule.append((n.lineno, 'if ' + ast.unparse(n.test)))
+    stat_cols = [(a, b, c) for _, a, b, c in sorted(stat_cols)]
+    pos_rule = [t for _, t in sorted(pos_rule)]
+
     strip = lambda xs: [x.lstrip('_') for x in xs]
     facts = {
         'sampleFields': strip(sample_fields), 'finalizeFields': strip(finalize_fields),
@@ -329,6 +376,7 @@ def main():
         'writeSites': ws, 'hashes': hashes,
         'sampleRaiseSites': sample_raises, 'beadsRaiseSites': beads_raises, 'outputSheetSpec': [[n, c] for n, c in sheets],
         'statsHeadColumns': head, 'statsPerChannelSuffixes': per,
+        'samplePipelineCalls': [list(t) for t in sample_calls], 'statColumnFunctions': [list(t) for t in stat_cols], 'positiveEventsRule': pos_rule,
         'summary': {'sampleFields': len(sample_fields), 'finalizeFields': len(finalize_fields),
                     'pickleFields': len(pickle_fields), 'writeSites': len(ws), 'functions_hashed': len(hashes)},
     }
@@ -354,6 +402,9 @@ def main():
     L.append('def outputSheetSpec : List (String × Bool) := [' + ', '.join('(%s, %s)' % (lstr(n), 'true' if c else 'false') for n, c in sheets) + ']')
     L.append('def statsHeadColumns : List String := [' + ', '.join(lstr(x) for x in head) + ']')
     L.append('def statsPerChannelSuffixes : List String := [' + ', '.join(lstr(x) for x in per) + ']')
+    L.append('def samplePipelineCalls : List (String × String × String) := [' + ',\n  '.join('(%s, %s, %s)' % tuple(lstr(x) for x in t) for t in sample_calls) + ']')
+    L.append('def statColumnFunctions : List (String × String × String) := [' + ',\n  '.join('(%s, %s, %s)' % tuple(lstr(x) for x in t) for t in stat_cols) + ']')
+    L.append('def positiveEventsRule : List String := [' + ', '.join(lstr(x) for x in pos_rule) + ']')
     L.append('end FlowCal.Generated')
     new_src = '\n'.join(L) + '\n'
     old = open(OUT_LEAN).read() if os.path.exists(OUT_LEAN) else None
